@@ -127,12 +127,17 @@ def thinkerAt (b : Bot.St) (k : Nat) : Option Thinker := (thinkers b)[k]?
 def recOf (c : Conf) (b : Bot.St) : GameRec :=
   { color := c.bot.color, size := c.size, positions := b.positions, moves := b.moves }
 
-/-- `g.bot.GetMove(moveCtx, p, mine, theirs)` up to the search -/
+/-- `g.bot.GetMove(moveCtx, p, mine, theirs)` up to the search, as a function of what it reads: the rule's notes, the
+record, the position and clock handed in, the check engine's verdicts -/
+def glueOn (c : Conf) (fpa : Option (Variant × Rule)) (positions : List Pos) (moves : List Move) (p : Pos) (mine : Int)
+    (chk : CheckOracle) : R (Option (Variant × Rule) × Action) :=
+  match c.who with
+  | .friendly _ => friendlyGetMove fpa { color := c.bot.color, size := c.size, positions := positions, moves := moves } p chk
+  | .taktician tc => .ok (fpa, takticianGetMove tc c.bot.color c.size p mine)
+
 def glueCall (c : Conf) (fpa : Option (Variant × Rule)) (b : Bot.St) (t : Thinker) (chk : CheckOracle) :
     R (Option (Variant × Rule) × Action) :=
-  match c.who with
-  | .friendly _ => friendlyGetMove fpa (recOf c b) t.pos chk
-  | .taktician tc => .ok (fpa, takticianGetMove tc c.bot.color c.size t.pos t.mine)
+  glueOn c fpa b.positions b.moves t.pos t.mine chk
 
 /-- the protocol goroutine's commands that `b'` has and `b` had not -/
 def newSent (b b' : Bot.St) : List Wire := (b'.sent.drop b.sent.length).map .bot
